@@ -169,15 +169,16 @@ class Facts:
             return lines
         self.moved.update(mapping)
         pats = [(re.compile(r"(?<![\w:])" + re.escape(a) + r"(?![\w])"), b_) for a, b_ in sorted(mapping.items(), key=lambda x: -len(x[0]))]
-        names = {a.rsplit("::", 1)[-1]: b_.rsplit("::", 1)[-1] for a, b_ in mapping.items() if a in cur_adts and cur_adts[a].get("kind") == "struct"}
+        names = {b_: (a.rsplit("::", 1)[-1], b_.rsplit("::", 1)[-1]) for a, b_ in mapping.items() if a in cur_adts and cur_adts[a].get("kind") == "struct"}
         out = []
         for line in lines:
             for rx, b_ in pats:
                 line = rx.sub(b_, line)
-            for nn, on in names.items():
+            for oldpath, (nn, on) in names.items():
                 if '"' + nn + '"' in line:
-                    line = line.replace('"variant":"%s"' % nn, '"variant":"%s"' % on)
-                    if '"k":"adt"' in line[:20]:
+                    # the single "variant" of a struct carries the struct's name: only in aggregates / the record of that struct
+                    line = line.replace('"adt":"%s","variant":"%s"' % (oldpath, nn), '"adt":"%s","variant":"%s"' % (oldpath, on))
+                    if '"k":"adt"' in line[:20] and ('"path":"%s"' % oldpath) in line[:300]:
                         line = line.replace('"name":"%s"' % nn, '"name":"%s"' % on)
             out.append(line)
         return out
@@ -237,6 +238,10 @@ class Facts:
                 if '"' + n_ + '"' in line:
                     for k_ in ("d", "name", "variant"):
                         line = line.replace('"%s":"%s"' % (k_, n_), '"%s":"%s"' % (k_, o_))
+                    # the variant's name as a string (derived Debug / Serialize / Deserialize tables): renamed on both sides alike
+                    line = line.replace('"lk":"str","v":"%s"' % n_, '"lk":"str","v":"%s"' % o_)
+                if '\\"' + n_ + '\\"' in line:
+                    line = line.replace('"c":"\\"%s\\""' % n_, '"c":"\\"%s\\""' % o_)
             out.append(line)
         return out
 
